@@ -246,3 +246,46 @@ Proof.
   rewrite cln_real; [reflexivity|].
   pose proof (sqrt_pos (x - 1)). pose proof (sqrt_pos (x + 1)). nra.
 Qed.
+(* ---------- logarithm to a base; ln as a left inverse on the principal strip ---------- *)
+Lemma pow_log_lemma z b : z <> czero -> b <> czero -> cln b <> czero -> cpow b (clog z b) = z.
+Proof.
+  intros Hz Hb Hl. rewrite pow_is_exp_ln_lemma by exact Hb. unfold clog.
+  replace (cmul (cdiv (cln z) (cln b)) (cln b)) with (cln z) by (field; exact Hl).
+  apply exp_ln_lemma, Hz.
+Qed.
+
+Lemma ln_exp_lemma z : - PI < im z <= PI -> cln (cexp z) = z.
+Proof.
+  intros Hy. destruct z as [x y]. cbn [im snd] in Hy.
+  change (cexp (x, y)) with (cpolar (exp x) y).
+  unfold cln. rewrite cabs_polar by (left; apply exp_pos).
+  rewrite arg_polar by (try apply exp_pos; exact Hy). rewrite ln_exp. reflexivity.
+Qed.
+
+Lemma sqrt_of_sqr_lemma z : 0 < re z -> csqrt (cmul z z) = z.
+Proof.
+  intros Hx.
+  assert (Hz : z <> czero) by (apply C_neq0; left; lra).
+  pose proof (polar_roundtrip_lemma z Hz) as Hp.
+  pose proof (cabs_pos z Hz) as Hr.
+  destruct (polar_decomp_lemma z Hz) as (Hc & Hs & Hrg).
+  set (r := cabs z) in *. set (t := arg z) in *.
+  (* t in (-PI/2, PI/2) because r cos t = re z > 0 *)
+  assert (Hcos : 0 < cos t) by (apply (Rmult_lt_reg_l r); [exact Hr | lra]).
+  pose proof PI_RGT_0 as Hpi.
+  assert (Ht : - (PI / 2) < t < PI / 2).
+  { split.
+    - destruct (Rlt_dec (- (PI / 2)) t) as [H|H]; [exact H | exfalso].
+      assert (cos t <= 0); [|lra].
+      rewrite <- cos_neg. apply cos_le_0; lra.
+    - destruct (Rlt_dec t (PI / 2)) as [H|H]; [exact H | exfalso].
+      assert (cos t <= 0); [|lra]. apply cos_le_0; lra. }
+  assert (Hzz : cmul z z = cpolar (r * r) (2 * t)).
+  { rewrite <- Hp at 1 2. unfold cpolar, cmul. cbn [re im fst snd].
+    rewrite cos_2a, sin_2a. f_equal; ring. }
+  rewrite Hzz. unfold csqrt.
+  rewrite cabs_polar by nra. rewrite arg_polar by (try nra; lra).
+  rewrite sqrt_square by lra.
+  replace (1 / 2 * (2 * t)) with t by field.
+  rewrite <- Hp. reflexivity.
+Qed.
